@@ -226,8 +226,8 @@ def _checker(B, w="default"):
     est = verde.synthetic.CheckerBoard.__new__(verde.synthetic.CheckerBoard)
     est.amplitude = B.real("amplitude")
     est.region = (B.real("cW"), B.real("cE"), B.real("cS"), B.real("cN"))
-    est.w_east = None if w == "default" else B.real("w_east")
-    est.w_north = None if w == "default" else B.real("w_north")
+    est.w_east = None if w in ("default", "north_only") else B.real("w_east")
+    est.w_north = None if w in ("default", "east_only") else B.real("w_north")
     return est
 
 
@@ -237,7 +237,7 @@ class CheckerBoardPredict(Contract):
     frame_attrs = set()
 
     def configs(self, tier):
-        return [{"rank": 1, "w": "default"}, {"rank": 2, "w": "default"}, {"rank": 1, "w": "given"}, {"rank": 1, "w": "default", "extra": 1}]
+        return [{"rank": 1, "w": "default"}, {"rank": 2, "w": "default"}, {"rank": 1, "w": "given"}, {"rank": 1, "w": "default", "extra": 1}, {"rank": 1, "w": "east_only"}, {"rank": 2, "w": "north_only"}]
 
     def setup(self, B, cfg):
         return (_checker(B, cfg["w"]), _coords(B, cfg["rank"], cfg.get("extra", 0), minsize=0)), {}
@@ -255,7 +255,7 @@ class CheckerBoardPredict(Contract):
 
         for _ in range(10):
             region = (rng.uniform(-10, 0), rng.uniform(1, 10), rng.uniform(-10, 0), rng.uniform(1, 10))
-            kw = rng.choice([{}, {"w_east": rng.uniform(1, 5), "w_north": rng.uniform(1, 5)}])
+            kw = rng.choice([{}, {"w_east": rng.uniform(1, 5), "w_north": rng.uniform(1, 5)}, {"w_east": rng.uniform(1, 5)}, {"w_north": rng.uniform(1, 5)}])  # each wavelength defaults on its own
             yield (verde.synthetic.CheckerBoard(amplitude=rng.uniform(1, 100), region=region, **kw), _rand_coords(rng, nrng, rng.choice([1, 2]), 0, scale=10.0)), {}
 
     tol = (1e-9, 1e-9)
